@@ -20,7 +20,9 @@ CFG = {'assumptions': ['f64 inputs cross the boundary as bit patterns and are de
  'lean_files': ['GeoModel/Closest.lean', 'GeoModel/InteriorPoint.lean', 'GeoModel/Ops/C12.lean',
                 'GeoModel/RelateSpec.lean', 'GeoModel/Valid.lean', 'GeoModel/Centroid.lean',
                 'GeoProofs/Lemmas/C12Line.lean', 'GeoProofs/Lemmas/C12Fold.lean',
-                'GeoProofs/Lemmas/C12Closest.lean', 'GeoProofs/Lemmas/C12Interior.lean'],
+                'GeoProofs/Lemmas/C12Closest.lean', 'GeoProofs/Lemmas/C12Interior.lean',
+                'GeoProofs/Lemmas/C12QCross.lean', 'GeoProofs/Lemmas/C12QScan.lean',
+                'GeoProofs/Lemmas/C12QSimple.lean', 'GeoProofs/Lemmas/C12QFold.lean', 'GeoProofs/Lemmas/C12QValid.lean'],
  'rule': 'half closest_point, half interior_point; geometries: shapes::gen_valid (all 10 types, nested '
          'collections), dedicated streams of polyomino polygons whose hole touches the shell, thin slivers / '
          'C-shapes / combs whose centroid is outside, needles down to 1 ulp thin, rings with repeated vertices, mixed-dimension collections, empty and zero-length inputs, '
@@ -35,9 +37,12 @@ CFG = {'assumptions': ['f64 inputs cross the boundary as bit patterns and are de
                   'Geo.locate (relate itself is property C01)',
                   'the specification side (Geo.locate, exact point-segment distances, Geo.validGeom) is itself a '
                   'Lean definition, not proved against an external standard',
-                  'the existence of an Inside scan midpoint for every valid polygon is standard geometry [S], not '
-                  'proved; tied down by the correspondence (the model never takes the vertex fallback on valid '
-                  'input; the checker demands Inside of the implementation\'s own point)']}
+                  'the existence of an Inside scan midpoint is PROVED for hole-free polygons with a simple exterior ring '
+                  '(interior_strict_ringSimple) and, for polyValid polygons with holes, under three explicit cross-ring '
+                  'hypotheses that validity implies but that are not derived (interior_strict_valid_partial: different rings '
+                  'never cross the scan line at the same abscissa; the shell winds around every point where a hole crosses '
+                  'the scan line); that remainder is standard geometry [S], tied down by the correspondence (the model never '
+                  'takes the vertex fallback on valid input; the checker demands Inside of the implementation\'s own point)']}
 
 MANIFEST = {'note': 'Trusted: Lean 4.33 kernel (axioms propext, Classical.choice, Quot.sound only; audited per theorem '
          'each run; no sorry, no native_decide, no added axioms); the Lean compiler running the model; the Rust '
@@ -60,7 +65,21 @@ MANIFEST = {'note': 'Trusted: Lean 4.33 kernel (axioms propext, Classical.choice
          'exactly for empty geometries (interior_none_iff); for point/line types it is one of the geometry\'s own '
          'coordinates, for a LineString of >= 3 coordinates a non-endpoint vertex nearest the centroid; the polygon '
          'scan returns only a candidate that passed the location test, its width counted only when Inside '
-         '(interior_verified_branch), and is Inside whenever some scan midpoint is (interior_strict_partial); the '
+         '(interior_verified_branch), and is Inside whenever some scan midpoint is (interior_strict_partial). That an '
+         'Inside scan midpoint exists is proved from the crossing structure of the scan line: on a level avoiding all '
+         'vertices (yMid_avoids_vertices) the winding number of a closed ring around (x, y) is minus the signed count of '
+         'the edge crossings at or left of x, the signs summing to 0 (level_winding_crossings), it changes by +-1 across one '
+         'crossing and is +-1 between the first two (level_winding_step, level_winding_first_interval); a ring with a vertex '
+         'above and one below has an even number >= 2 of crossings (level_crossing_exists); line_intersection of an edge with '
+         'the scan segment reports exactly that crossing abscissa; no candidate is on the boundary and the midpoint of the '
+         'first two crossings is Inside. Hence interior_point is Inside for every hole-free polygon whose exterior ring is '
+         'ringSimple, with no further hypothesis (interior_strict_ringSimple, interior_polygon_inside_simple, and interior_multipolygon_inside_simple for '
+         'MultiPolygons of such members; a ringSimple '
+         'ring has pairwise distinct crossings and a bounding box of positive width and height), more generally when the '
+         'hit abscissae are pairwise distinct (interior_strict_simple), and for polygons with holes when moreover hole '
+         'coordinates lie in the shell box and every hole crossing has a shell crossing to its left / is wound by the '
+         'shell (interior_strict_holes_partial, interior_strict_holes_wound_partial); for polyValid polygons all but the '
+         'cross-ring hypotheses are derived from validity (interior_strict_valid_partial). The '
          'MultiPolygon answer has maximal verified width. Each run the real closest_point / interior_point are run '
          'on generated geometries and the implementation\'s own f64 output is judged exactly by the DE-9IM '
          'specification: variant tag exact, returned point on g and nearest within tolerance; interior point not '
